@@ -328,7 +328,23 @@ let cmd_lk (args : string list) : string =
     "ok " ^ (if lk_should_notify b r a s e then "notify" else "silent") ^ " " ^ print_cks (lk_next_registered b r a s e)
   | _ -> "err badcmd"
 
+(* ---------- k-way merge of updates (Crdt/Merge.v: transcription of Update::merge_updates) ---------- *)
+let cmd_mrg (args : string list) : string =
+  match args with
+  | "merge" :: hexes ->
+    let decs = List.map (fun hx -> let bs = bytes_of_hex hx in match decode_update_v1 (fuel_for bs) bs with Ok (u, _) -> Some u | _ -> None) hexes in
+    if List.exists (fun x -> x = None) decs then "err undecodable-argument" else
+    let us = List.filter_map (fun x -> x) decs in
+    let r = mrg_merge_updates us in
+    (match encode_update_v1 r with
+     | Some out -> "ok " ^ hex_of_bytes out ^ " wf=" ^ (if mrg_wf us then "1" else "0") ^ " wfn=" ^ (if mrg_wf_norm us then "1" else "0")
+     | None -> "panic encode")
+  | _ -> "err badcmd"
+
 (* ---------- codecs ---------- *)
+let print_idm (v : (n * ((n * n) * ((n list * any) option) list) list) list) : string =
+  let pa = function None -> "?" | Some (nm, vl) -> rawhex nm ^ "=" ^ print_any vl in
+  String.concat ";" (List.map (fun (c, rs) -> hex_of_n c ^ "[" ^ String.concat " " (List.map (fun ((s, e), ats) -> hex_of_n s ^ ".." ^ hex_of_n e ^ "{" ^ String.concat "," (List.sort compare (List.map pa ats)) ^ "}") rs) ^ "]") v)
 let cmd_dec (args : string list) : string =
   match args with
   | ["varu32"; hx] -> pres hex_of_n (read_var_u32 (bytes_of_hex hx))
@@ -341,6 +357,22 @@ let cmd_dec (args : string list) : string =
   | ["sv"; hx] -> let bs = bytes_of_hex hx in pres print_sv (decode_sv_v1 (fuel_for bs) bs)
   | ["snapshot"; hx] -> let bs = bytes_of_hex hx in pres (fun (ds, s) -> print_idset ds ^ "@" ^ print_sv s) (decode_snapshot_v1 (fuel_for bs) bs)
   | ["update"; hx] -> let bs = bytes_of_hex hx in pres print_update (decode_update_v1 (fuel_for bs) bs)
+  (* lib0 v2 forms of the small wire types (Codec/WireV2.v) *)
+  | ["idset2"; hx] -> pres print_idset (w2_decode_idset (bytes_of_hex hx))
+  | ["sv2"; hx] -> pres print_sv (w2_decode_sv (bytes_of_hex hx))
+  | ["snapshot2"; hx] -> pres (fun (ds, s) -> print_idset ds ^ "@" ^ print_sv s) (w2_decode_snapshot (bytes_of_hex hx))
+  | ["sticky2"; hx] -> pres (fun (sc, a) -> print_scope sc ^ (if a then "a" else "b")) (w2_decode_sticky (bytes_of_hex hx))
+  | ["reenc_idset2"; hx] -> (match w2_decode_idset (bytes_of_hex hx) with Ok (v, _) -> (match w2_encode_idset_opt v with Some o -> "ok " ^ hex_of_bytes o | None -> "panic encode") | Err e -> "err " ^ err_name e | Panic s -> "panic " ^ hex_of_n s | Fuel -> "fuel")
+  | ["reenc_sv2"; hx] -> (match w2_decode_sv (bytes_of_hex hx) with Ok (v, _) -> (match w2_encode_sv_opt v with Some o -> "ok " ^ hex_of_bytes o | None -> "panic encode") | Err e -> "err " ^ err_name e | Panic s -> "panic " ^ hex_of_n s | Fuel -> "fuel")
+  | ["reenc_snapshot2"; hx] -> (match w2_decode_snapshot (bytes_of_hex hx) with Ok (v, _) -> (match w2_encode_snapshot_opt v with Some o -> "ok " ^ hex_of_bytes o | None -> "panic encode") | Err e -> "err " ^ err_name e | Panic s -> "panic " ^ hex_of_n s | Fuel -> "fuel")
+  | ["reenc_sticky2"; hx] -> (match w2_decode_sticky (bytes_of_hex hx) with Ok (v, _) -> (match w2_encode_sticky_opt v with Some o -> "ok " ^ hex_of_bytes o | None -> "panic encode") | Err e -> "err " ^ err_name e | Panic s -> "panic " ^ hex_of_n s | Fuel -> "fuel")
+  (* attributed id map (values are strings) *)
+  | ["idmap"; hx] -> let bs = bytes_of_hex hx in pres (fun v -> print_idm (idm_resolve v)) (idm_decode_v1 (fuel_for bs) bs)
+  | ["reenc_idmap"; hx] ->
+    let bs = bytes_of_hex hx in
+    (match idm_decode_v1 (fuel_for bs) bs with
+     | Ok (v, _) -> "ok " ^ hex_of_bytes (idm_encode_v1 v)
+     | Err e -> "err " ^ err_name e | Panic s -> "panic " ^ hex_of_n s | Fuel -> "fuel")
   (* decode then re-encode with the model's encoder (clients in the order given on the wire) *)
   | ["sticky"; hx] -> pres (fun (sc, a) -> print_scope sc ^ (if a then "a" else "b")) (decode_sticky (bytes_of_hex hx))
   | ["reenc_sticky"; hx] ->
@@ -620,6 +652,7 @@ let dispatch (line : string) : string =
   | "U" :: args -> cmd_undo args
   | "CELL" :: args -> cmd_cell args
   | "LK" :: args -> cmd_lk args
+  | "MRG" :: args -> cmd_mrg args
   | "DEC" :: args -> cmd_dec args
   | "ENC" :: args -> cmd_enc args
   | ["PING"] -> "ok pong"
